@@ -28,7 +28,7 @@ FILES = ["dagrt/codegen/fortran.py", "dagrt/codegen/python.py", "dagrt/codegen/d
 
 # global_table: the kind table's global part is (also) filled in a loop over a set of component ids (fortran.py, keyed store
 # through SymbolKindTable.set), so its insertion order follows the hash order: every iteration over it must be laundered
-UNORDERED_ATTRS = {"depends_on", "global_table"}
+UNORDERED_ATTRS = {"depends_on", "global_table", "per_phase_table"}      # per_phase_table: loop counters enter it from a set
 KEYED_STORE_METHODS = {"set": "SymbolKindTable.set(phase, name, kind) stores under `name`; entries under distinct names commute "
                               "(the table's insertion order does not: global_table is treated as unordered)"}
 UNORDERED_CALLS = {"set", "frozenset", "get_read_variables", "get_written_variables", "get_variables",
@@ -76,6 +76,8 @@ class Taint:
             return e.id in self.names
         if isinstance(e, pyast.Attribute):
             return e.attr in UNORDERED_ATTRS
+        if isinstance(e, pyast.Subscript) and isinstance(e.value, pyast.Attribute) and e.value.attr in UNORDERED_ATTRS:
+            return True
         if isinstance(e, pyast.Call):
             n = func_name(e)
             if n in ("sorted", "natsorted", "list", "tuple", "reversed", "enumerate") and e.args:
@@ -84,6 +86,9 @@ class Taint:
                 return True
             if n in ("keys", "values", "items") and isinstance(e.func, pyast.Attribute):
                 return self.unordered(e.func.value)      # dict views follow their dict (dicts are insertion ordered)
+            if n in ("get", "setdefault") and isinstance(e.func, pyast.Attribute) and isinstance(e.func.value, pyast.Attribute) \
+                    and e.func.value.attr in UNORDERED_ATTRS:
+                return True                              # an inner table of such a table (per_phase_table.get(phase, {}))
             if n == "iter" and e.args:
                 return self.unordered(e.args[0])
             return False
